@@ -189,4 +189,58 @@ def rhp3ReadObject (E : Env) (s : Sch) (maxLen : Nat) (stream : Bytes) : ReadRes
       | .error e => .error e
   | .error e => .error e
 
+/-! ### rhp/v3 RPCs on one stream: the per-RPC subscription frame
+
+`(*Stream).WriteRequest` writes, for EVERY RPC, a subscription frame (`len ‖ "host"` as a
+length-prefixed string), then the id object, then the request object; `(*Stream).ReadID` reads a
+subscription frame (through a reader limited to `minMessageSize`), answers it, then reads the id.
+The mux below is symbolic: an ordered, lossless byte stream (concatenation). -/
+
+/-- the subscriber name every RPC announces -/
+def rhp3Subscriber : Bytes := [104, 111, 115, 116]  -- "host"
+
+/-- subscription frame: `e.WriteUint64(8 + len("host")); e.WriteString("host")` -/
+def rhp3SubFrame : Bytes := u64le (8 + rhp3Subscriber.length) ++ (u64le rhp3Subscriber.length ++ rhp3Subscriber)
+
+def rhp3SubSch : Sch := .cons "length" .u64 (.cons "subscriber" .str .nil)
+
+/-- the 16-byte RPC id, sent as an object -/
+def rhp3IdSch : Sch := .fixed 16
+
+/-- `WriteRequest(id, req)`: subscription, id object, request object -/
+def rhp3WriteRPC (E : Env) (s : Sch) (id req : Val) : Bytes :=
+  rhp3SubFrame ++ (rhp3WriteObject E rhp3IdSch (respObj id) 0 ++ rhp3WriteObject E s (respObj req) 0)
+
+/-- the host's `ReadID` + `ReadRequest`: the (id, request) read and the rest of the stream -/
+def rhp3HostReadRPC (E : Env) (s : Sch) (maxLen : Nat) (stream : Bytes) : Except DecErr ((Val × Val) × Bytes) :=
+  match readLimited E Gen.Framing.rhp3_minMessageSize rhp3SubSch stream with
+  | .ok (.pair _ (.pair (.bytes name) .unit), c1) =>
+    if name ≠ rhp3Subscriber then .error .invalid else
+    match rhp3ReadObject E rhp3IdSch 16 (stream.drop c1) with
+    | .ok (.pair (.nat 0) id, c2) =>
+      (match rhp3ReadObject E s maxLen ((stream.drop c1).drop c2) with
+       | .ok (.pair (.nat 0) req, c3) => .ok ((id, req), ((stream.drop c1).drop c2).drop c3)
+       | .ok _ => .error .invalid
+       | .error e => .error e)
+    | .ok _ => .error .invalid
+    | .error e => .error e
+  | .ok _ => .error .invalid
+  | .error e => .error e
+
+/-- `k` RPCs written one after the other on the stream -/
+def rhp3WriteSeq (E : Env) (s : Sch) : List (Val × Val) → Bytes
+  | [] => []
+  | (id, req) :: rest => rhp3WriteRPC E s id req ++ rhp3WriteSeq E s rest
+
+/-- the host reading `n` RPCs from the stream -/
+def rhp3HostReadSeq (E : Env) (s : Sch) (maxLen : Nat) : Nat → Bytes → Except DecErr (List (Val × Val) × Bytes)
+  | 0, stream => .ok ([], stream)
+  | n + 1, stream =>
+    match rhp3HostReadRPC E s maxLen stream with
+    | .ok (r, rest) =>
+      (match rhp3HostReadSeq E s maxLen n rest with
+       | .ok (rs, rest') => .ok (r :: rs, rest')
+       | .error e => .error e)
+    | .error e => .error e
+
 end Sia.Framing
